@@ -69,25 +69,21 @@ Proof.
     intro H; inversion H; subst; [apply F2; reflexivity | exact F1].
 Qed.
 
+Lemma replace_page_content_frame d page c d' r : replace_page_content d page c = (d', r) -> content_frame d d'.
+Proof.
+  unfold replace_page_content.
+  destruct (add_object d (new_stream c)) as [[d1 nid]|] eqn:E; [|intro H; inversion H; apply content_frame_refl].
+  destruct (add_then_set_frame d _ d1 nid page K_Contents (ORef (fst nid) (snd nid)) E) as [F1 F2].
+  destruct (set_page_entry _ _ _ _) as [m2|]; intro H; inversion H; subst; [apply F2; reflexivity | exact F1].
+Qed.
+
 Theorem change_page_content_frame O d page c d' r : change_page_content O d page c = (d', r) -> content_frame d d'.
 Proof.
   unfold change_page_content. destruct (get_dictionary (d_objects d) page) as [pd|]; [|intro H; inversion H; apply content_frame_refl].
-  assert (New : forall d' r,
-    match add_object d (new_stream c) with
-    | Some (d1, nid) =>
-      match set_page_entry (d_objects d1) page K_Contents (ORef (fst nid) (snd nid)) with
-      | Some m2 => (with_objs d1 m2, OOk)
-      | None => (d1, OOk)
-      end
-    | None => (d, OPanic)
-    end = (d', r) -> content_frame d d').
-  { intros d2 r2. destruct (add_object d (new_stream c)) as [[d1 nid]|] eqn:E; [|intro H; inversion H; apply content_frame_refl].
-    destruct (add_then_set_frame d _ d1 nid page K_Contents (ORef (fst nid) (snd nid)) E) as [F1 F2].
-    destruct (set_page_entry _ _ _ _) as [m2|]; intro H; inversion H; subst; [apply F2; reflexivity | exact F1]. }
-  destruct (dict_get pd K_Contents) as [[| | | | | |l| | |i g]|]; try (intro H; inversion H; apply content_frame_refl).
-  - destruct l as [|x [|y l]]; [apply New | | apply New].
-    destruct x; intro H; inversion H; subst; try apply content_frame_refl. apply ccs_content_frame.
-  - intro H; inversion H; subst. apply ccs_content_frame.
+  destruct (dict_get pd K_Contents) as [x|]; [|intro H; inversion H; apply content_frame_refl].
+  destruct (single_stream (d_objects d) x) as [id|]; [|apply replace_page_content_frame].
+  destruct (is_content_stream_of_another_page d id page); [apply replace_page_content_frame|].
+  intro H; inversion H; subst. apply ccs_content_frame.
 Qed.
 
 (* ---------- operations that keep the set of objects ---------- *)
